@@ -1,10 +1,15 @@
 package main
 
 import (
+	stdjson "encoding/json"
 	"fmt"
 	"math/rand"
+	"sort"
+	"strings"
+	"sync"
 	"time"
 
+	opentracing "github.com/opentracing/opentracing-go"
 	tchannel "github.com/uber/tchannel-go"
 	"github.com/uber/tchannel-go/json"
 	"github.com/uber/tchannel-go/thrift"
@@ -14,21 +19,65 @@ import (
 
 // hdrpath: application headers attached to a call's context must reach the thrift / JSON
 // handler exactly, and the handler's response headers must reach the caller exactly.
+//
+// Every case runs under one of 24 tracer configurations (caller: none / A / Z / mocktracer;
+// callee: none / A / B / Z / mocktracer / C = extraction fails as corrupted; c18_tracer.go),
+// i.e. the statement's classes {no tracer, caller only, callee only, both the same, both
+// different}: the caller's tracer piggy-backs "$tracing$..." entries on the arg2 header map and
+// the callee must hide them again whatever its own tracer makes of them.  Header maps contain,
+// besides random keys, keys that LOOK like transport keys (prefix without the last '$', other
+// case, prefix in the middle, the empty key, the tracers' own key names without the prefix) and,
+// in a quarter of the cases, keys WITH the prefix (the library hides those from the handler:
+// known finding c18:reserved-tracing-prefix; such a case is tagged when exactly those keys are
+// missing and is a plain violation otherwise).  The caller's tracer injects, besides its ids,
+// baggage of a parent span and pairs chosen by the engine (empty key, upper case, a key that
+// collides with an application header, fresh keys that overflow the 100-entry key cache of
+// tracing_keys.go), or nothing at all.
+//
+// Oracle (from the statement): the handler's Headers() == the caller's map, no key more and none
+// less; ResponseHeaders() at the caller == the map the handler set (keys with the prefix
+// included: the response path has no tracing layer); the caller's own map is not modified.
+// Cases whose caller is not the mock tracer are also model cases (sub tracehdr, Model/TraceHdr.v:
+// the pairs the tracer passed to carrier.Set are recorded and replayed; the model's output is
+// proved equal to "the caller's map without the keys that have the prefix").
 
 func init() { engines["hdrpath"] = engineHdrPath }
 
+// hdrSecond: handler state of one callee channel (thrift and JSON handlers share it).  The engine
+// makes one call at a time; take() hands out what the handler of that call saw.
 type hdrSecond struct {
-	seen chan map[string]string
-	resp map[string]string
+	mu    sync.Mutex
+	calls int
+	seen  map[string]string
+	resp  map[string]string
+}
+
+func (h *hdrSecond) enter(hdrs map[string]string) map[string]string {
+	got := map[string]string{}
+	for k, v := range hdrs {
+		got[k] = v
+	}
+	h.mu.Lock()
+	defer h.mu.Unlock()
+	h.calls++
+	h.seen = got
+	return h.resp
+}
+
+func (h *hdrSecond) plan(resp map[string]string) {
+	h.mu.Lock()
+	defer h.mu.Unlock()
+	h.calls, h.seen, h.resp = 0, nil, resp
+}
+
+func (h *hdrSecond) take() (int, map[string]string) {
+	h.mu.Lock()
+	defer h.mu.Unlock()
+	return h.calls, h.seen
 }
 
 func (h *hdrSecond) Echo(ctx thrift.Context, arg string) (string, error) {
-	got := map[string]string{}
-	for k, v := range ctx.Headers() {
-		got[k] = v
-	}
-	h.seen <- got
-	ctx.SetResponseHeaders(h.resp)
+	ctx.SetResponseHeaders(h.enter(ctx.Headers()))
 	return arg, nil
 }
 
@@ -65,89 +114,314 @@ func sameMap(a, b map[string]string) bool {
 	return true
 }
 
+// hpServer: one callee channel with its handlers' state.
+type hpServer struct {
+	side c18Side
+	ch   *tchannel.Channel
+	th   *hdrSecond
+}
+
+type hpClient struct {
+	side c18Side
+	ch   *tchannel.Channel
+	t    []gen.TChanSecondService // per server
+	j    []*json.Client
+}
+
+// hpDiff: keys of got that are not in want / keys of want that got lacks or shows with another value.
+func hpDiff(got, want map[string]string) string {
+	var extra, missing []string
+	for k := range got {
+		if _, ok := want[k]; !ok {
+			extra = append(extra, fmt.Sprintf("%.40q", k))
+		}
+	}
+	for k, v := range want {
+		if w, ok := got[k]; !ok {
+			missing = append(missing, fmt.Sprintf("%.40q", k))
+		} else if w != v {
+			missing = append(missing, fmt.Sprintf("%.40q (other value)", k))
+		}
+	}
+	sort.Strings(extra)
+	sort.Strings(missing)
+	if len(extra) > 6 {
+		extra = append(extra[:6], "...")
+	}
+	if len(missing) > 6 {
+		missing = append(missing[:6], "...")
+	}
+	return fmt.Sprintf("extra keys [%s], missing keys [%s]", strings.Join(extra, " "), strings.Join(missing, " "))
+}
+
+// hpAddLookalikes: keys that look like transport keys; returns whether a key with the exact prefix was added.
+func hpAddLookalikes(rng *rand.Rand, m map[string]string, ns string, jsonSafe, allowReserved bool) bool {
+	val := func() string {
+		if jsonSafe {
+			return utf8Safe(rng, pick(rng, 0, 1, 12))
+		}
+		return randBytes(rng, pick(rng, 0, 1, 12))
+	}
+	if rng.Intn(2) == 0 {
+		for i := pick(rng, 1, 2, 3); i > 0; i-- {
+			m[c18LookalikeKeys(false, ns, rng.Intn(64))] = val()
+		}
+	}
+	reserved := false
+	if allowReserved && rng.Intn(4) == 0 {
+		for i := pick(rng, 1, 1, 2); i > 0; i-- {
+			m[c18LookalikeKeys(true, ns, rng.Intn(64))] = val()
+			reserved = true
+		}
+	}
+	return reserved
+}
+
+// hpPadJSON: add the entry "pad" so that the JSON text of m (without the newline the encoder appends) is `target` bytes long.
+func hpPadJSON(m map[string]string, target int) {
+	m["pad"] = ""
+	b, _ := stdjson.Marshal(m)
+	if len(b) < target {
+		m["pad"] = strings.Repeat("v", target-len(b))
+	}
+}
+
 func engineHdrPath(rng *rand.Rand, n int, tier string, o *Out) {
-	server, err := tchannel.NewChannel("hdr-server", nil)
-	if err != nil {
-		panic(err)
+	callerSides, calleeSides := c18CallerSides(), c18CalleeSides()
+	var servers []*hpServer
+	for _, side := range calleeSides {
+		ch, err := tchannel.NewChannel("hdr-server", side.opts())
+		if err != nil {
+			panic(err)
+		}
+		defer ch.Close()
+		if err := ch.ListenAndServe("127.0.0.1:0"); err != nil {
+			panic(err)
+		}
+		s := &hpServer{side: side, ch: ch, th: &hdrSecond{}}
+		thrift.NewServer(ch).Register(gen.NewTChanSecondServiceServer(s.th))
+		json.Register(ch, json.Handlers{
+			"echo": func(ctx json.Context, arg map[string]string) (map[string]string, error) {
+				ctx.SetResponseHeaders(s.th.enter(ctx.Headers()))
+				return arg, nil
+			},
+		}, func(ctx context.Context, err error) {})
+		servers = append(servers, s)
 	}
-	defer server.Close()
-	if err := server.ListenAndServe("127.0.0.1:0"); err != nil {
-		panic(err)
+	var clients []*hpClient
+	for _, side := range callerSides {
+		ch, err := tchannel.NewChannel("hdr-client", side.opts())
+		if err != nil {
+			panic(err)
+		}
+		defer ch.Close()
+		c := &hpClient{side: side, ch: ch}
+		for _, s := range servers {
+			hp := s.ch.PeerInfo().HostPort
+			c.t = append(c.t, gen.NewTChanSecondServiceClient(thrift.NewClient(ch, "hdr-server", &thrift.ClientOptions{HostPort: hp})))
+			c.j = append(c.j, json.NewClient(ch, "hdr-server", &json.ClientOptions{HostPort: hp}))
+		}
+		clients = append(clients, c)
 	}
-	h := &hdrSecond{seen: make(chan map[string]string, 1)}
-	ts := thrift.NewServer(server)
-	ts.Register(gen.NewTChanSecondServiceServer(h))
-
-	jsonSeen := make(chan map[string]string, 1)
-	var jsonResp map[string]string
-	json.Register(server, json.Handlers{
-		"echo": func(ctx json.Context, arg map[string]string) (map[string]string, error) {
-			got := map[string]string{}
-			for k, v := range ctx.Headers() {
-				got[k] = v
-			}
-			jsonSeen <- got
-			ctx.SetResponseHeaders(jsonResp)
-			return arg, nil
-		},
-	}, func(ctx context.Context, err error) {})
-
-	client, err := tchannel.NewChannel("hdr-client", nil)
-	if err != nil {
-		panic(err)
-	}
-	defer client.Close()
-	client.Peers().Add(server.PeerInfo().HostPort)
-	tclient := gen.NewTChanSecondServiceClient(thrift.NewClient(client, "hdr-server", nil))
-	jclient := json.NewClient(client, "hdr-server", nil)
+	combos := len(clients) * len(servers)
+	fresh := 0 // counter for tracer keys never used before (the key cache holds 100 entries)
 
 	for c := 0; c < n; c++ {
-		if c%2 == 0 {
-			req, resp := genHdrMap(rng, true), genHdrMap(rng, true)
-			h.resp = resp
-			ctx, cancel := thrift.NewContext(5 * time.Second)
-			tctx := thrift.WithHeaders(ctx, req)
-			_, err := tclient.Echo(tctx, "x")
-			cancel()
-			verdict := ""
-			if err != nil {
-				verdict = "thrift call failed: " + err.Error()
-			} else {
-				got := <-h.seen
-				if !sameMap(got, req) {
-					verdict = fmt.Sprintf("thrift handler saw %d headers, caller attached %d: application headers did not arrive exactly", len(got), len(req))
-				} else if !sameMap(tctx.ResponseHeaders(), resp) {
-					verdict = fmt.Sprintf("thrift caller saw %d response headers, handler set %d", len(tctx.ResponseHeaders()), len(resp))
-				}
+		combo := c % combos
+		cl, sv := clients[combo%len(clients)], servers[combo/len(clients)]
+		si := combo / len(clients)
+		isThrift := (c/combos+combo)%2 == 0
+		class := c18Class(cl.side, sv.side)
+		ns := "a"
+
+		req, resp := genHdrMap(rng, isThrift), genHdrMap(rng, isThrift)
+		hasReserved := hpAddLookalikes(rng, req, ns, !isThrift, true)
+		hpAddLookalikes(rng, resp, ns, !isThrift, true)
+		reqCopy := hqCopy(req)
+
+		// --- what the caller's tracer will inject
+		var parent opentracing.Span
+		mute := false
+		if tr := cl.side.tracer(); tr != nil && rng.Intn(2) == 0 {
+			parent = tr.StartSpan("parent")
+			for i := pick(rng, 1, 1, 2, 4); i > 0; i-- {
+				parent.SetBaggageItem(fmt.Sprintf("k%d", rng.Intn(6)), utf8Safe(rng, pick(rng, 0, 3, 20)))
 			}
-			o.Hist(fmt.Sprintf("thrift req=%d resp=%d", min(len(req), 3), min(len(resp), 3)))
-			o.Oracle("hdrpath-thrift", fmt.Sprintf("t%d", c), len(req)+len(resp) > 0, fmt.Sprint(req, resp), verdict)
+		}
+		if cl.side.own != nil {
+			var extra [][2]string
+			mute = rng.Intn(8) == 0
+			for i := pick(rng, 0, 0, 1, 2, 5); i > 0; i-- {
+				var k string
+				switch rng.Intn(6) {
+				case 0:
+					k = ""
+				case 1:
+					k = "X-Upper-" + utf8Safe(rng, 2)
+				case 2: // collides with an application header that carries the prefix
+					k = "x"
+					for _, kv := range sortedKVs(req) {
+						if c18Reserved(kv[0]) {
+							k = kv[0][len(c18Prefix):]
+							break
+						}
+					}
+				case 3: // the name of an application header (no collision: the tracer's key gets the prefix)
+					k = "plain"
+					for _, kv := range sortedKVs(req) {
+						if !c18Reserved(kv[0]) {
+							k = kv[0]
+							break
+						}
+					}
+				default:
+					fresh++
+					k = fmt.Sprintf("bag-%d", fresh)
+				}
+				extra = append(extra, [2]string{k, utf8Safe(rng, pick(rng, 0, 1, 9))})
+			}
+			cl.side.own.plan(mute, extra)
+		}
+
+		// --- directed sizes (JSON): an argument whose JSON text is exactly 4096*k bytes long.  The
+		// request headers can only be sized when the caller's tracer adds nothing to them.
+		body := map[string]string{"a": "b"}
+		directed := ""
+		timeout := 5 * time.Second
+		if !isThrift && c%13 == 3 {
+			target := 4096 * pick(rng, 1, 1, 2, 2, 3, 4, 16)
+			which := rng.Intn(3)
+			if cl.side.tracer() == nil && rng.Intn(2) == 0 {
+				which = 0
+			} else if which == 0 && cl.side.tracer() != nil {
+				which = 1 + rng.Intn(2)
+			}
+			switch which {
+			case 0:
+				hpPadJSON(req, target)
+				reqCopy = hqCopy(req)
+				directed = fmt.Sprintf("request headers of %d bytes", target)
+			case 1:
+				hpPadJSON(resp, target)
+				directed = fmt.Sprintf("response headers of %d bytes", target)
+			default:
+				hpPadJSON(body, target)
+				directed = fmt.Sprintf("arg3 of %d bytes", target)
+			}
+			timeout = time.Second // a request the callee cannot read is never answered
+		}
+
+		base, cancel := tchannel.NewContext(timeout)
+		var pctx context.Context = base
+		if parent != nil {
+			pctx = opentracing.ContextWithSpan(base, parent)
+		}
+
+		var err error
+		var gotResp map[string]string
+		bodyOK := true
+		sv.th.plan(resp)
+		if isThrift {
+			tctx := thrift.WithHeaders(pctx, req)
+			_, err = cl.t[si].Echo(tctx, "x")
+			if err == nil {
+				gotResp = tctx.ResponseHeaders()
+			}
 		} else {
-			req, resp := genHdrMap(rng, false), genHdrMap(rng, false)
-			jsonResp = resp
-			ctx, cancel := json.NewContext(5 * time.Second)
-			jctx := json.WithHeaders(ctx, req)
+			jctx := json.WithHeaders(pctx, req)
 			var out map[string]string
-			err := jclient.Call(jctx, "echo", map[string]string{"a": "b"}, &out)
-			cancel()
-			verdict := ""
-			if err != nil {
-				verdict = "json call failed: " + err.Error()
-			} else {
-				got := <-jsonSeen
-				if !sameMap(got, req) {
-					verdict = fmt.Sprintf("json handler saw %d headers, caller attached %d", len(got), len(req))
-				} else if !sameMap(jctx.ResponseHeaders(), resp) {
-					verdict = fmt.Sprintf("json caller saw %d response headers, handler set %d", len(jctx.ResponseHeaders()), len(resp))
-				} else if out["a"] != "b" {
-					verdict = "json argument did not round-trip"
+			err = cl.j[si].Call(jctx, "echo", body, &out)
+			if err == nil {
+				gotResp = jctx.ResponseHeaders()
+				bodyOK = sameMap(out, body)
+			}
+		}
+		cancel()
+		ran, seen := sv.th.take()
+		var sets [][2]string
+		if cl.side.own != nil {
+			sets = cl.side.own.sets()
+		}
+		if c%50 == 49 {
+			for _, s := range append(append([]c18Side{}, callerSides...), calleeSides...) {
+				if s.mock != nil {
+					s.mock.Reset()
 				}
 			}
-			o.Hist(fmt.Sprintf("json req=%d resp=%d", min(len(req), 3), min(len(resp), 3)))
-			o.Oracle("hdrpath-json", fmt.Sprintf("j%d", c), len(req)+len(resp) > 0, fmt.Sprint(req, resp), verdict)
+		}
+
+		// --- oracle (from the statement)
+		scheme := "json"
+		if isThrift {
+			scheme = "thrift"
+		}
+		want := map[string]string{}
+		for k, v := range req {
+			if !c18Reserved(k) {
+				want[k] = v
+			}
+		}
+		where := fmt.Sprintf("%s call, tracers caller=%s callee=%s (%s), caller's tracer injected %d pairs", scheme, cl.side.label, sv.side.label, class, len(sets))
+		if cl.side.mock != nil {
+			where = fmt.Sprintf("%s call, tracers caller=%s callee=%s (%s)", scheme, cl.side.label, sv.side.label, class)
+		}
+		verdict := ""
+		switch {
+		case err != nil && !isThrift && (strings.Contains(err.Error(), "found unexpected bytes after read arg") || (directed != "" && ran == 0)):
+			verdict = fmt.Sprintf("[c18:json-arg-4096-boundary] json call failed (%v; handler ran %d times): a JSON argument whose text ends exactly where a buffered read of the argument stream ends (%s) is refused with its own terminating newline as `unexpected bytes` (%s)", err, ran, directed, where)
+		case err != nil:
+			verdict = scheme + " call failed: " + err.Error() + " (" + where + ")"
+		case ran != 1:
+			verdict = fmt.Sprintf("the handler ran %d times for one call (%s)", ran, where)
+		case !sameMap(req, reqCopy):
+			verdict = fmt.Sprintf("the call modified the header map the caller attached to its context: %s (%s)", hpDiff(req, reqCopy), where)
+		case sameMap(seen, reqCopy):
+			// exactly the caller's headers
+		case hasReserved && sameMap(seen, want):
+			verdict = fmt.Sprintf("[c18:reserved-tracing-prefix] application headers whose key starts with %q do not reach the handler: %s (%s)", c18Prefix, hpDiff(seen, reqCopy), where)
+		default:
+			verdict = fmt.Sprintf("the handler saw %d headers, the caller attached %d: application headers did not arrive exactly: %s (%s)", len(seen), len(reqCopy), hpDiff(seen, reqCopy), where)
+		}
+		if verdict == "" || strings.HasPrefix(verdict, "[c18:reserved-tracing-prefix]") {
+			switch {
+			case err != nil:
+			case !sameMap(gotResp, resp):
+				verdict = fmt.Sprintf("the caller saw %d response headers, the handler set %d: %s (%s)", len(gotResp), len(resp), hpDiff(gotResp, resp), where)
+			case !bodyOK:
+				verdict = "json argument did not round-trip"
+			}
+		}
+
+		o.Hist(fmt.Sprintf("%s %s req=%d resp=%d", scheme, class, min(len(req), 3), min(len(resp), 3)))
+		o.Hist(fmt.Sprintf("tracers %s", c18Label(cl.side, sv.side)))
+		if hasReserved {
+			o.Hist("application key with the transport prefix")
+		}
+		if mute {
+			o.Hist("caller's tracer injects nothing")
+		}
+		if directed != "" {
+			o.Hist("json argument of 4096*k bytes")
+		}
+		id := fmt.Sprintf("%s%d", scheme[:1], c)
+		if cl.side.mock != nil {
+			// the mock tracer does not tell what it passed to carrier.Set: oracle only
+			o.Oracle("hdrpath-"+scheme, id, true, fmt.Sprint(combo, req, resp), verdict)
+		} else {
+			in := []int64{b2i(!isThrift), 1}
+			in = putKVs(in, sets)
+			in = putKVs(in, sortedKVs(reqCopy))
+			in = append(in, int64(combo))
+			var obs []int64
+			if err != nil {
+				obs = []int64{254}
+			} else {
+				obs = putKVs(obs, sortedKVs(seen))
+			}
+			o.Case("tracehdr", id, in, obs, true, verdict)
 		}
 		if c < 2 {
-			o.Sample(map[string]interface{}{"sub": "hdrpath", "case": c})
+			o.Sample(map[string]interface{}{"sub": "hdrpath", "case": c, "tracers": c18Label(cl.side, sv.side), "scheme": scheme, "headers": len(req), "injected": len(sets)})
 		}
 	}
 }
